@@ -90,17 +90,23 @@ func (db *Backend) ListBucket(name string, prefix *gofakes3.Prefix, page gofakes
 	var iter = goskipiter.New(storedBucket.objects.Iterator())
 	var match gofakes3.PrefixMatch
 
+	var lastMatchedPart string
+
 	if page.Marker != "" {
 		iter.Seek(page.Marker)
 		// If the current item is the Marker, move to the next item.
 		if iter.Key() == page.Marker {
 			iter.Next()
 		}
+		// If the Marker lies inside a common prefix, that prefix has been
+		// reported on the page the Marker comes from: the keys that follow
+		// under the same prefix must not report it again.
+		if prefix.Match(page.Marker, &match) && match.CommonPrefix {
+			lastMatchedPart = match.MatchedPart
+		}
 	}
 
 	var cnt int64 = 0
-
-	var lastMatchedPart string
 
 	for iter.Next() {
 		item := iter.Value().(*bucketObject)
